@@ -795,10 +795,6 @@ Definition dec_eqv (a b : dec) : Prop :=
   let '(nb, mb, eb) := b in
   na = nb /\ ma * 10 ^ (ea - Z.min ea eb) = mb * 10 ^ (eb - Z.min ea eb).
 
-Lemma sign_not_space : forall (neg : bool) l,
-  skip_ws ((if neg then [45] else []) ++ l) = (if neg then [45] else []) ++ skip_ws l \/ True.
-Proof. intros; right; exact I. Qed.
-
 Definition sgn_text (neg : bool) : list Z := if neg then [45] else [].
 
 Lemma scan_sign_sgn : forall neg c l,
@@ -985,19 +981,19 @@ Proof.
   rewrite Htext.
   destruct (fscale f =? 0) eqn:Es.
   - exists [48], D, ed. rewrite Hform; [|apply all_digits_one; lia|assumption].
-    repeat split; try assumption; try discriminate.
-    + apply all_digits_one; lia.
-    + change ([48] ++ D) with (48 :: D). rewrite val_digits_cons, HDval. lia.
-    + lia.
+    split; [reflexivity|]. split; [apply all_digits_one; lia|]. split; [discriminate|].
+    split; [assumption|]. split; [assumption|]. split; [assumption|].
+    split; [change ([48] ++ D) with (48 :: D); rewrite val_digits_cons, HDval; lia|].
+    split; [lia|assumption].
   - assert (Hs1 : 1 <= fscale f <= f_d f + 1) by lia.
     exists (firstn (Z.to_nat (fscale f)) D), (skipn (Z.to_nat (fscale f)) D), ed.
     rewrite Hform; [|apply Forall_firstn; assumption|apply Forall_skipn; assumption].
-    repeat split; try assumption.
-    + apply Forall_firstn; assumption.
-    + intro H0. apply (f_equal (@length Z)) in H0. rewrite firstn_length in H0. cbn [length] in H0. lia.
-    + apply Forall_skipn; assumption.
-    + rewrite firstn_skipn. assumption.
-    + rewrite skipn_length. lia.
+    split; [reflexivity|]. split; [apply Forall_firstn; assumption|].
+    split.
+    { intro H0. apply (f_equal (@length Z)) in H0. rewrite firstn_length in H0. cbn [length] in H0. lia. }
+    split; [apply Forall_skipn; assumption|]. split; [assumption|]. split; [assumption|].
+    split; [rewrite firstn_skipn; assumption|].
+    split; [rewrite skipn_length; lia|assumption].
 Qed.
 
 Lemma print_dec_fix_shape : forall f neg mant ex,
@@ -1019,18 +1015,476 @@ Proof.
   destruct (dec_digits_spec (n mod 10 ^ f_d f) ltac:(lia)) as (Hf1 & Hf2 & Hf3).
   unfold print_dec_text. rewrite Hk. fold n.
   destruct (f_d f =? 0) eqn:Ed.
-  - exists (dec_digits (n / 10 ^ f_d f)), []. repeat split; try assumption; try constructor.
-    + rewrite app_nil_r, Hi2. assert (f_d f = 0) by lia. rewrite H in *. change (10 ^ 0) with 1 in *.
-      rewrite Z.div_1_r. reflexivity.
-    + cbn [length]. lia.
+  - exists (dec_digits (n / 10 ^ f_d f)), [].
+    split; [reflexivity|]. split; [assumption|]. split; [assumption|]. split; [constructor|].
+    split.
+    { rewrite app_nil_r, Hi2. assert (H0 : f_d f = 0) by lia. rewrite H0 in *. change (10 ^ 0) with 1 in *.
+      rewrite Z.div_1_r. reflexivity. }
+    cbn [length]. lia.
   - set (fds := dec_digits (n mod 10 ^ f_d f)) in *.
     assert (Hlen : (length fds <= Z.to_nat (f_d f))%nat).
     { apply dec_digits_length; [lia|]. rewrite Z2Nat.id by lia. lia. }
     exists (dec_digits (n / 10 ^ f_d f)), (zeros (Z.to_nat (f_d f) - length fds) ++ fds).
-    repeat split; try assumption.
-    + apply all_digits_app; [apply all_digits_zeros|assumption].
-    + rewrite val_digits_app, Hi2. rewrite val_digits_app, val_zeros, Hf2.
+    split; [reflexivity|]. split; [assumption|]. split; [assumption|].
+    split; [apply all_digits_app; [apply all_digits_zeros|assumption]|].
+    split.
+    { rewrite val_digits_app, Hi2. rewrite val_digits_app, val_zeros, Hf2.
       rewrite app_length, zeros_length.
-      replace (Z.of_nat (Z.to_nat (f_d f) - length fds + length fds)) with (f_d f) by lia. lia.
-    + rewrite app_length, zeros_length. lia.
+      replace (Z.of_nat (Z.to_nat (f_d f) - length fds + length fds)) with (f_d f) by lia. lia. }
+    rewrite app_length, zeros_length. lia.
+Qed.
+
+Lemma ge32_of_map_d2e : forall l, ge32 (map d2e l) -> ge32 l.
+Proof.
+  induction l as [|c l IH]; intros H; [constructor|].
+  cbn [map] in H. inversion H as [|? ? Hc Hl]; subst. constructor; [|apply IH; assumption].
+  unfold d2e in Hc. destruct ((c =? 68) || (c =? 100)) eqn:E; lia.
+Qed.
+
+Lemma pad_left_length : forall w t, (length t <= w)%nat -> length (pad_left w t) = w.
+Proof. intros w t H. unfold pad_left. rewrite app_length, blanks_length. lia. Qed.
+
+Lemma ffmt_ok_facts : forall f, ffmt_ok f = true ->
+  1 <= f_per f /\ 1 <= f_w f /\ 0 <= f_d f /\ f_per f * f_w f <= 80 /\
+  (f_kind f <> FF -> fscale f = 0 \/ 1 <= fscale f <= f_d f + 1).
+Proof.
+  intros f H. unfold ffmt_ok in H. repeat rewrite andb_true_iff in H.
+  destruct H as [[[[[H1 H2] H3] H4] H5] H6].
+  repeat split; try lia.
+  intros Hk. unfold fscale. destruct (f_scale f) as [s|]; [|left; reflexivity].
+  rewrite andb_true_iff in H6. destruct H6 as [H6a H6].
+  destruct (f_kind f); try congruence; right; lia.
+Qed.
+
+Lemma ffmt_ok_wf : forall f, ffmt_ok f = true -> ffmt_wf f /\ (length (ffmt_text f) <= 20)%nat.
+Proof.
+  intros f H. unfold ffmt_ok in H. repeat rewrite andb_true_iff in H.
+  destruct H as [[[[[H1 H2] H3] H4] H5] H6].
+  unfold ffmt_wf, INT_MAX in *. split; [|lia].
+  repeat split; try nia.
+  destruct (f_scale f) as [s|]; [|exact I].
+  rewrite andb_true_iff in H6. destruct H6 as [H6a H6]. destruct (f_kind f); lia.
+Qed.
+
+Lemma ifmt_ok_wf : forall f, ifmt_ok f = true ->
+  ifmt_wf f /\ (length (ifmt_text f) <= 16)%nat /\ 1 <= i_per f /\ 1 <= i_w f /\ i_per f * i_w f <= 80.
+Proof.
+  intros f H. unfold ifmt_ok in H. repeat rewrite andb_true_iff in H.
+  destruct H as [[[H1 H2] H3] H4]. unfold ifmt_wf, INT_MAX. repeat split; try nia; lia.
+Qed.
+
+Lemma atof_print_dec : forall f v, ffmt_ok f = true -> dec_fits f v = true ->
+  atof_str (map d2e (print_dec f v)) = Ok (norm_dec f v)
+  /\ ge32 (print_dec f v) /\ length (print_dec f v) = Z.to_nat (f_w f).
+Proof.
+  intros f [[neg mant] ex] Hok Hfit.
+  destruct (ffmt_ok_facts f Hok) as (Hper & Hw & Hd & Hline & Hsc).
+  unfold dec_fits in Hfit. repeat rewrite andb_true_iff in Hfit. destruct Hfit as [[Hm Hkind] Hlen].
+  assert (Hm' : 0 <= mant) by lia.
+  assert (Hlen' : (length (print_dec_text f (neg, mant, ex)) <= Z.to_nat (f_w f))%nat) by lia.
+  unfold print_dec, pad_left. rewrite map_app, map_d2e_blanks.
+  set (kb := (Z.to_nat (f_w f) - length (print_dec_text f (neg, mant, ex)))%nat).
+  assert (Hshape : exists ip fp tl_ d,
+     map d2e (print_dec_text f (neg, mant, ex)) = sgn_text neg ++ ip ++ 46 :: fp ++ tl_
+     /\ all_digits ip /\ all_digits fp /\ ge32 tl_
+     /\ scan_float (blanks kb ++ sgn_text neg ++ ip ++ 46 :: fp ++ tl_) = (0, d, [])
+     /\ d = norm_dec f (neg, mant, ex)).
+  { assert (Hcase : f_kind f <> FF \/ f_kind f = FF) by (destruct (f_kind f); [left|left|right]; congruence).
+    destruct Hcase as [Hk|Hk].
+    - assert (Hkind' : Z.of_nat (length (dec_digits mant)) <= (if fscale f =? 0 then f_d f else f_d f + 1)).
+      { unfold fscale. destruct (f_kind f); [lia|lia|congruence]. }
+      destruct (print_dec_sci_shape f neg mant ex Hk Hm' Hd (Hsc Hk) Hkind')
+        as (ip & fp & ed & E1 & E2 & E3 & E4 & E5 & E6 & E7 & E8 & E9).
+      eexists ip, fp, _, _. split; [exact E1|]. split; [assumption|]. split; [assumption|].
+      split.
+      { constructor; [lia|]. constructor; [destruct (_ <? 0); cbn; lia|]. apply ge32_digits; assumption. }
+      split; [apply scan_float_sci; assumption|].
+      unfold norm_dec. rewrite E7, E8, E9.
+      destruct (f_kind f); [| |congruence]; f_equal; destruct (_ <? 0) eqn:Ex; lia.
+    - assert (Hkind' : 0 <= ex + f_d f) by (rewrite Hk in Hkind; lia).
+      destruct (print_dec_fix_shape f neg mant ex Hk Hm' Hd Hkind') as (ip & fp & E1 & E2 & E3 & E4 & E5 & E6).
+      exists ip, fp, [], (neg, val_digits (ip ++ fp), - Z.of_nat (length fp)).
+      split.
+      { rewrite E1. repeat rewrite map_app. cbn [map]. rewrite map_d2e_sgn, (map_d2e_digits ip E2), (map_d2e_digits fp E4).
+        rewrite app_nil_r. reflexivity. }
+      split; [assumption|]. split; [assumption|]. split; [constructor|].
+      split; [rewrite app_nil_r; apply scan_float_fixed; assumption|].
+      unfold norm_dec. rewrite Hk, E5, E6. reflexivity. }
+  destruct Hshape as (ip & fp & tl_ & d & E1 & E2 & E3 & E4 & E5 & E6).
+  split; [|split].
+  - unfold atof_str. fold kb. rewrite E1, E5. cbn. rewrite E6. reflexivity.
+  - apply ge32_app; [apply ge32_blanks|]. apply ge32_of_map_d2e. rewrite E1.
+    apply ge32_app; [apply ge32_sgn|]. apply ge32_app; [apply ge32_digits; assumption|].
+    constructor; [lia|]. apply ge32_app; [apply ge32_digits; assumption|assumption].
+  - rewrite app_length, blanks_length. lia.
+Qed.
+
+Lemma map_d2e_length : forall l, length (map d2e l) = length l.
+Proof. intros; apply map_length. Qed.
+
+Lemma skipn_app2 : forall (A : Type) (a b r : list A), skipn (length a + length b) (a ++ b ++ r) = r.
+Proof. intros A a b r. rewrite app_assoc, <- app_length. apply skipn_app_exact. Qed.
+
+Lemma read_val_field_print : forall f pre v rest j,
+  ffmt_ok f = true -> dec_fits f v = true -> rest <> [] -> 0 <= j ->
+  Z.of_nat (length pre) = j * f_w f -> (j + 1) * f_w f < 100 ->
+  read_val_field (f_w f) (pre ++ print_dec f v ++ rest) j
+  = Ok (norm_dec f v, pre ++ map d2e (print_dec f v) ++ rest).
+Proof.
+  intros f pre v rest j Hok Hfit Hrest Hj Hpre Hb.
+  destruct (ffmt_ok_facts f Hok) as (Hper & Hw & Hd & Hline & Hsc).
+  destruct (atof_print_dec f v Hok Hfit) as (Hatof & Hge & Hlen).
+  destruct rest as [|c post]; [congruence|].
+  set (F := print_dec f v) in *.
+  unfold read_val_field.
+  assert (E0 : (f_w f =? 0) = false) by lia. rewrite E0.
+  assert (E1 : ((0 <=? (j + 1) * f_w f) && ((j + 1) * f_w f <? BUFSZ) && (0 <=? j * f_w f)) = true).
+  { unfold BUFSZ. rewrite !andb_true_iff. repeat split; nia. }
+  rewrite E1.
+  replace (Z.to_nat (j * f_w f)) with (length pre) by lia.
+  rewrite firstn_app_exact, skipn_app_exact.
+  rewrite <- Hlen. rewrite firstn_app_exact.
+  rewrite skipn_app2.
+  replace (Z.to_nat ((j + 1) * f_w f)) with (length (pre ++ map d2e F)).
+  2:{ rewrite app_length, map_length. nia. }
+  rewrite (app_assoc pre (map d2e F)). rewrite buf_set_app by reflexivity.
+  rewrite <- app_assoc. rewrite skipn_app_exact.
+  rewrite cstr_app.
+  2:{ apply ge32_pos. unfold ge32 in *. rewrite Forall_forall in *. intros x Hx. apply in_map_iff in Hx.
+      destruct Hx as (y & <- & Hy). specialize (Hge y Hy). unfold d2e. destruct ((y =? 68) || (y =? 100)); lia. }
+  cbn [bind]. rewrite Hatof. cbn [bind]. reflexivity.
+Qed.
+
+Lemma read_values_print : forall f vs rest,
+  ffmt_ok f = true -> Forall (fun v => dec_fits f v = true) vs ->
+  read_values (print_vec (print_dec f) (f_per f) vs ++ rest) (Z.of_nat (length vs)) (f_per f) (f_w f)
+  = Ok (map (norm_dec f) vs, rest).
+Proof.
+  intros f vs rest Hok HP. unfold read_values.
+  destruct (ffmt_ok_facts f Hok) as (Hper & Hw & Hd & Hline & Hsc).
+  apply (read_lines_print_vec (f_w f) (print_dec f) (fun v => map d2e (print_dec f v)) (norm_dec f)
+           (fun v => dec_fits f v = true) (read_val_field (f_w f)) Hw).
+  - intros v Hv. destruct (atof_print_dec f v Hok Hv) as (_ & _ & Hl). lia.
+  - intros v Hv. apply map_length.
+  - intros v Hv. destruct (atof_print_dec f v Hok Hv) as (_ & Hg & _). apply ge32_no10. assumption.
+  - intros pre v rest0 j Hv Hr Hj Hpre Hb. apply read_val_field_print; assumption.
+  - assumption.
+  - assumption.
+  - assumption.
+Qed.
+
+(* ================================================================== header lines *)
+Lemma skipn_add : forall (A : Type) b a (l : list A), skipn a (skipn b l) = skipn (a + b) l.
+Proof.
+  intros A b. induction b as [|b IH]; intros a l.
+  - rewrite Nat.add_0_r. reflexivity.
+  - destruct l as [|x l].
+    + repeat rewrite skipn_nil. reflexivity.
+    + cbn [skipn]. rewrite IH. replace (a + S b)%nat with (S (a + b)) by lia. reflexivity.
+Qed.
+
+Lemma dump_line_nl : forall r, dump_line (10 :: r) = Ok r.
+Proof. reflexivity. Qed.
+
+Definition int14_ok (x : Z) : Prop := 0 <= x <= INT_MAX /\ (length (dec_digits x) <= 14)%nat.
+
+Lemma int_fits_14 : forall x, int_fits 14 x = true -> int14_ok x.
+Proof.
+  intros x H. unfold int_fits in H. repeat rewrite andb_true_iff in H. destruct H as [[H1 H2] H3].
+  unfold int14_ok. split; lia.
+Qed.
+
+Lemma print_int14_length : forall x, int14_ok x -> length (print_int 14 x) = 14%nat.
+Proof. intros x [_ H]. rewrite print_int_length; [reflexivity|]. change (Z.to_nat 14) with 14%nat. exact H. Qed.
+
+Lemma header_int_term : forall buf x rest,
+  int14_ok x -> (15 <= length buf)%nat ->
+  header_int 14 true buf (print_int 14 x ++ rest) = Ok (x, print_int 14 x ++ 0 :: skipn 15 buf, rest).
+Proof.
+  intros buf x rest Hx Hb. pose proof (print_int14_length x Hx) as Hl. destruct Hx as [Hx _].
+  unfold header_int. rewrite read_c_app by assumption. cbn [bind].
+  unfold buf_write. rewrite Hl.
+  destruct (skipn 14 buf) as [|c t] eqn:Es.
+  { apply (f_equal (@length Z)) in Es. rewrite skipn_length in Es. cbn [length] in Es. lia. }
+  assert (Et : t = skipn 15 buf).
+  { change 15%nat with (1 + 14)%nat. rewrite <- skipn_add, Es. reflexivity. }
+  rewrite buf_set_app by (symmetry; assumption).
+  rewrite atoi_buf_print_int; [|assumption|reflexivity|lia]. cbn [bind]. rewrite Et. reflexivity.
+Qed.
+
+Lemma header_int_unterm : forall a t x rest,
+  int14_ok x -> length a = 14%nat ->
+  header_int 14 false (a ++ 0 :: t) (print_int 14 x ++ rest) = Ok (x, print_int 14 x ++ 0 :: t, rest).
+Proof.
+  intros a t x rest Hx Ha. pose proof (print_int14_length x Hx) as Hl. destruct Hx as [Hx _].
+  unfold header_int. rewrite read_c_app by assumption. cbn [bind].
+  unfold buf_write. rewrite Hl, <- Ha, skipn_app_exact.
+  rewrite atoi_buf_print_int; [|assumption|reflexivity|lia]. reflexivity.
+Qed.
+
+Lemma buf_write_short : forall b a r, (length b <= length a)%nat ->
+  buf_write b (a ++ r) = b ++ skipn (length b) a ++ r.
+Proof.
+  intros b a r H. unfold buf_write. rewrite skipn_app.
+  replace (length b - length a)%nat with 0%nat by lia. reflexivity.
+Qed.
+
+Lemma pad_right_length : forall w t, (length t <= w)%nat -> length (pad_right w t) = w.
+Proof. intros w t H. unfold pad_right. rewrite app_length, blanks_length. lia. Qed.
+
+Lemma pif_buf : forall f buf, ifmt_wf f ->
+  parse_int_format (buf_write (pad_right 16 (ifmt_text f)) buf) = Ok (i_per f, i_w f).
+Proof.
+  intros f buf H. unfold buf_write, pad_right. rewrite <- app_assoc. apply parse_int_format_correct. assumption.
+Qed.
+
+Lemma pff_buf : forall f buf, ffmt_wf f ->
+  parse_float_format (buf_write (pad_right 20 (ffmt_text f)) buf) = Ok (f_per f, f_w f).
+Proof.
+  intros f buf H. unfold buf_write, pad_right. rewrite <- app_assoc. apply parse_float_format_correct. assumption.
+Qed.
+
+(* ================================================================== the three vectors *)
+Definition no10 (l : list Z) : bool := forallb (fun c => negb (c =? 10)) l.
+
+Lemma no10_spec : forall l, no10 l = true -> ~ In 10 l.
+Proof.
+  intros l H Hin. unfold no10 in H. rewrite forallb_forall in H. specialize (H 10 Hin). discriminate.
+Qed.
+
+Definition body_ok (cplx : bool) (ptr ind : ifmt) (val : ffmt) (M : csc) : bool :=
+  ifmt_ok ptr && ifmt_ok ind && ffmt_ok val
+  && forallb (fun x => (0 <=? x) && int_fits (i_w ptr) (x + 1)) (m_colptr M)
+  && forallb (fun x => (0 <=? x) && int_fits (i_w ind) (x + 1)) (m_rowind M)
+  && forallb (dec_fits val) (m_vals M)
+  && (Z.of_nat (length (m_colptr M)) =? m_ncol M + 1)
+  && (Z.of_nat (length (m_vals M)) =? (if cplx then 2 else 1) * m_nnz M)
+  && int_fits 14 (m_nrow M) && int_fits 14 (m_ncol M) && int_fits 14 (m_nnz M)
+  && (m_ncol M <? INT_MAX).
+
+(* what the reader must return for M written with value format val *)
+Definition expected_result (val : ffmt) (M : csc) : rd_result :=
+  mkres (m_nrow M) (m_ncol M) (m_nnz M) (m_colptr M) (m_rowind M)
+        (negb (is_nil (m_vals M))) (map (norm_dec val) (m_vals M)).
+
+Lemma nlines_zero : forall (A : Type) per (xs : list A), nlines per xs =? 0 = is_nil xs.
+Proof.
+  intros A per xs. unfold nlines. destruct xs as [|x xs]; [reflexivity|]. cbn [length chunk is_nil]. lia.
+Qed.
+
+Lemma items_ok : forall w l,
+  forallb (fun x => (0 <=? x) && int_fits w (x + 1)) l = true ->
+  Forall (fun x => int_item_ok w (x + 1)) l.
+Proof.
+  intros w l H. rewrite forallb_forall in H. apply Forall_forall. intros x Hx. specialize (H x Hx).
+  unfold int_fits in H. repeat rewrite andb_true_iff in H. destruct H as [H0 [[H1 H2] H3]].
+  unfold int_item_ok. split; lia.
+Qed.
+
+Lemma read_body_print : forall cplx ptr ind val M tail,
+  body_ok cplx ptr ind val M = true ->
+  read_body cplx (print_body ptr ind val M ++ tail) (m_nrow M) (m_ncol M) (m_nnz M)
+            (nlines (f_per val) (m_vals M))
+            (i_per ptr) (i_w ptr) (i_per ind) (i_w ind) (f_per val) (f_w val)
+  = Ok (expected_result val M).
+Proof.
+  intros cplx ptr ind val M tail H. unfold body_ok in H. repeat rewrite andb_true_iff in H.
+  destruct H as [[[[[[[[[[[Hp Hi] Hv] Hcp] Hri] Hvs] Hlcp] Hlvs] Hnr] Hnc] Hnz] Hncm].
+  destruct (ifmt_ok_wf ptr Hp) as (_ & _ & Hp1 & Hp2 & Hp3).
+  destruct (ifmt_ok_wf ind Hi) as (_ & _ & Hi1 & Hi2 & Hi3).
+  unfold read_body, print_body. repeat rewrite <- app_assoc.
+  replace (m_ncol M + 1) with (Z.of_nat (length (m_colptr M))) by lia.
+  rewrite read_vector_print; try assumption; [|apply items_ok; assumption]. cbn [bind].
+  unfold m_nnz at 1. rewrite read_vector_print; try assumption; [|apply items_ok; assumption]. cbn [bind].
+  rewrite nlines_zero. unfold expected_result.
+  destruct (m_vals M) as [|v vs] eqn:Ev.
+  - reflexivity.
+  - cbn [is_nil negb]. rewrite <- Ev in *.
+    replace (if cplx then 2 * m_nnz M else m_nnz M) with (Z.of_nat (length (m_vals M))) by (destruct cplx; lia).
+    rewrite read_values_print; [reflexivity|assumption|].
+    apply Forall_forall. rewrite forallb_forall in Hvs. assumption.
+Qed.
+
+(* ================================================================== Harwell-Boeing *)
+Definition hb_ok (cplx : bool) (h : hb_opts) (M : csc) : bool :=
+  body_ok cplx (h_ptr h) (h_ind h) (h_val h) M
+  && (length (h_title h) =? 72)%nat && (length (h_key h) =? 8)%nat && (length (h_type h) =? 3)%nat
+  && (length (h_rhsfmt h) =? 20)%nat && no10 (h_rhsline h)
+  && int_fits 14 (h_rhscrd h)
+  && int_fits 14 (nlines (i_per (h_ptr h)) (m_colptr M))
+  && int_fits 14 (nlines (i_per (h_ind h)) (m_rowind M))
+  && int_fits 14 (nlines (f_per (h_val h)) (m_vals M))
+  && int_fits 14 (nlines (i_per (h_ptr h)) (m_colptr M) + nlines (i_per (h_ind h)) (m_rowind M)
+                  + nlines (f_per (h_val h)) (m_vals M) + h_rhscrd h).
+
+Lemma title_buf_length : forall t, length t = 72%nat ->
+  length (buf_set 72 0 (buf_write t undef_buf)) = 100%nat.
+Proof.
+  intros t Ht. unfold buf_set, buf_write.
+  repeat rewrite app_length. cbn [length]. rewrite firstn_length, skipn_length, app_length, skipn_length.
+  change (length undef_buf) with 100%nat. lia.
+Qed.
+
+Lemma body_ok_ints : forall cplx ptr ind val M, body_ok cplx ptr ind val M = true ->
+  int14_ok (m_nrow M) /\ int14_ok (m_ncol M) /\ int14_ok (m_nnz M) /\ alloc_ok (m_ncol M) (m_nnz M) = true
+  /\ ifmt_ok ptr = true /\ ifmt_ok ind = true /\ ffmt_ok val = true.
+Proof.
+  intros cplx ptr ind val M H. unfold body_ok in H. repeat rewrite andb_true_iff in H.
+  destruct H as [[[[[[[[[[[Hp Hi] Hv] Hcp] Hri] Hvs] Hlcp] Hlvs] Hnr] Hnc] Hnz] Hncm].
+  pose proof (int_fits_14 _ Hnr) as H1. pose proof (int_fits_14 _ Hnc) as H2. pose proof (int_fits_14 _ Hnz) as H3.
+  repeat split; try assumption; try apply H1; try apply H2; try apply H3.
+  unfold alloc_ok. destruct H2 as [H2 _]. destruct H3 as [H3 _]. lia.
+Qed.
+
+Theorem read_print_roundtrip_hb : forall cplx h M tail,
+  hb_ok cplx h M = true ->
+  parse_hb cplx (print_hb h M ++ tail) = Ok (expected_result (h_val h) M).
+Proof.
+  intros cplx h M tail H. unfold hb_ok in H. repeat rewrite andb_true_iff in H.
+  destruct H as [[[[[[[[[[Hbody Ht] Hk] Hty] Hrf] Hrl] Hrc] Hc1] Hc2] Hc3] Hc4].
+  apply Nat.eqb_eq in Ht, Hk, Hty, Hrf.
+  destruct (body_ok_ints _ _ _ _ _ Hbody) as (Inr & Inc & Inz & Halloc & Hp & Hi & Hv).
+  destruct (ifmt_ok_wf _ Hp) as (Wp & Lp & _). destruct (ifmt_ok_wf _ Hi) as (Wi & Li & _).
+  destruct (ffmt_ok_wf _ Hv) as (Wv & Lv).
+  apply int_fits_14 in Hrc, Hc1, Hc2, Hc3, Hc4.
+  unfold parse_hb, print_hb.
+  set (ptrcrd := nlines (i_per (h_ptr h)) (m_colptr M)) in *.
+  set (indcrd := nlines (i_per (h_ind h)) (m_rowind M)) in *.
+  set (valcrd := nlines (f_per (h_val h)) (m_vals M)) in *.
+  repeat rewrite <- app_assoc. cbn [app].
+  (* line 1 *)
+  rewrite read_c_app by assumption. cbn [bind].
+  rewrite read_c_app by assumption. cbn [bind].
+  rewrite dump_line_nl. cbn [bind].
+  (* line 2 *)
+  rewrite header_int_term; [|assumption|rewrite title_buf_length by assumption; lia]. cbn [bind].
+  rewrite header_int_term; [|assumption|rewrite app_length, print_int14_length by assumption; cbn [length]; lia]. cbn [bind].
+  rewrite header_int_term; [|assumption|rewrite app_length, print_int14_length by assumption; cbn [length]; lia]. cbn [bind].
+  rewrite header_int_term; [|assumption|rewrite app_length, print_int14_length by assumption; cbn [length]; lia]. cbn [bind].
+  rewrite header_int_term; [|assumption|rewrite app_length, print_int14_length by assumption; cbn [length]; lia]. cbn [bind].
+  rewrite dump_line_nl. cbn [bind].
+  (* line 3 *)
+  rewrite read_c_app by assumption. cbn [bind].
+  rewrite read_c_app by apply blanks_length. cbn [bind].
+  rewrite buf_write_short by (rewrite blanks_length, print_int14_length by assumption; lia).
+  rewrite app_assoc.
+  rewrite header_int_unterm;
+    [|assumption|rewrite app_length, skipn_length; repeat rewrite blanks_length; rewrite print_int14_length by assumption; reflexivity].
+  cbn [bind].
+  rewrite header_int_unterm; [|assumption|apply print_int14_length; assumption]. cbn [bind].
+  rewrite header_int_unterm; [|assumption|apply print_int14_length; assumption]. cbn [bind].
+  rewrite header_int_unterm; [|split; [unfold INT_MAX; lia|cbv; lia]|apply print_int14_length; assumption]. cbn [bind].
+  rewrite dump_line_nl. cbn [bind].
+  (* line 4 *)
+  rewrite read_c_app by (apply pad_right_length; assumption). cbn [bind].
+  rewrite pif_buf by assumption. cbn [bind].
+  rewrite read_c_app by (apply pad_right_length; assumption). cbn [bind].
+  rewrite pif_buf by assumption. cbn [bind].
+  rewrite read_c_app by (apply pad_right_length; assumption). cbn [bind].
+  rewrite pff_buf by assumption. cbn [bind].
+  rewrite read_c_app by assumption. cbn [bind].
+  rewrite dump_line_nl. cbn [bind].
+  (* line 5 *)
+  rewrite Halloc.
+  destruct (h_rhscrd h =? 0) eqn:Er.
+  - cbn [app bind]. apply read_body_print. assumption.
+  - rewrite <- app_assoc. cbn [app]. rewrite dump_line_app by (apply no10_spec; assumption). cbn [bind].
+    apply read_body_print. assumption.
+Qed.
+
+(* ================================================================== Rutherford-Boeing *)
+Definition rb_ok (cplx : bool) (h : rb_opts) (M : csc) : bool :=
+  body_ok cplx (b_ptr h) (b_ind h) (b_val h) M
+  && (length (b_title h) <=? 98)%nat && no10 (b_title h) && (length (b_type h) =? 3)%nat
+  && int_fits 14 (nlines (i_per (b_ptr h)) (m_colptr M))
+  && int_fits 14 (nlines (i_per (b_ind h)) (m_rowind M))
+  && int_fits 14 (nlines (f_per (b_val h)) (m_vals M))
+  && int_fits 14 (nlines (i_per (b_ptr h)) (m_colptr M) + nlines (i_per (b_ind h)) (m_rowind M)
+                  + nlines (f_per (b_val h)) (m_vals M)).
+
+Theorem read_print_roundtrip_rb : forall cplx h M tail,
+  rb_ok cplx h M = true ->
+  parse_rb cplx (print_rb h M ++ tail) = Ok (expected_result (b_val h) M).
+Proof.
+  intros cplx h M tail H. unfold rb_ok in H. repeat rewrite andb_true_iff in H.
+  destruct H as [[[[[[[Hbody Ht] Htn] Hty] Hc1] Hc2] Hc3] Hc4].
+  apply Nat.leb_le in Ht. apply Nat.eqb_eq in Hty. apply no10_spec in Htn.
+  destruct (body_ok_ints _ _ _ _ _ Hbody) as (Inr & Inc & Inz & Halloc & Hp & Hi & Hv).
+  destruct (ifmt_ok_wf _ Hp) as (Wp & Lp & _). destruct (ifmt_ok_wf _ Hi) as (Wi & Li & _).
+  destruct (ffmt_ok_wf _ Hv) as (Wv & Lv).
+  apply int_fits_14 in Hc1, Hc2, Hc3, Hc4.
+  unfold parse_rb, print_rb.
+  set (ptrcrd := nlines (i_per (b_ptr h)) (m_colptr M)) in *.
+  set (indcrd := nlines (i_per (b_ind h)) (m_rowind M)) in *.
+  set (valcrd := nlines (f_per (b_val h)) (m_vals M)) in *.
+  repeat rewrite <- app_assoc. cbn [app].
+  match goal with |- match ?s with [] => _ | _ :: _ => _ end = _ => destruct s as [|c0 s0] eqn:Es end.
+  { destruct (b_title h); discriminate. }
+  rewrite <- Es. clear Es c0 s0.
+  (* line 1 *)
+  rewrite fgets_line by (auto; lia).
+  set (buf0 := b_title h ++ 10 :: 0 :: skipn (length (b_title h) + 2) undef_buf).
+  assert (Hlen0 : (15 <= length buf0)%nat).
+  { unfold buf0. rewrite app_length. cbn [length]. rewrite skipn_length. change (length undef_buf) with 100%nat. lia. }
+  (* line 2 *)
+  rewrite header_int_term; [|assumption|assumption]. cbn [bind].
+  rewrite header_int_term; [|assumption|rewrite app_length, print_int14_length by assumption; cbn [length]; lia]. cbn [bind].
+  rewrite header_int_term; [|assumption|rewrite app_length, print_int14_length by assumption; cbn [length]; lia]. cbn [bind].
+  rewrite header_int_term; [|assumption|rewrite app_length, print_int14_length by assumption; cbn [length]; lia]. cbn [bind].
+  rewrite dump_line_nl. cbn [bind].
+  (* line 3 *)
+  rewrite read_c_app by assumption. cbn [bind].
+  rewrite read_c_app by apply blanks_length. cbn [bind].
+  rewrite buf_write_short by (rewrite blanks_length, print_int14_length by assumption; lia).
+  rewrite app_assoc.
+  rewrite header_int_unterm;
+    [|assumption|rewrite app_length, skipn_length; repeat rewrite blanks_length; rewrite print_int14_length by assumption; reflexivity].
+  cbn [bind].
+  rewrite header_int_unterm; [|assumption|apply print_int14_length; assumption]. cbn [bind].
+  rewrite header_int_unterm; [|assumption|apply print_int14_length; assumption]. cbn [bind].
+  rewrite header_int_unterm; [|split; [unfold INT_MAX; lia|cbv; lia]|apply print_int14_length; assumption]. cbn [bind].
+  rewrite dump_line_nl. cbn [bind].
+  rewrite Halloc.
+  (* line 4 *)
+  rewrite read_c_app by (apply pad_right_length; assumption). cbn [bind].
+  rewrite pif_buf by assumption. cbn [bind].
+  rewrite read_c_app by (apply pad_right_length; assumption). cbn [bind].
+  rewrite pif_buf by assumption. cbn [bind].
+  rewrite read_c_app by (apply pad_right_length; assumption). cbn [bind].
+  rewrite pff_buf by assumption. cbn [bind].
+  rewrite dump_line_nl. cbn [bind].
+  apply read_body_print. assumption.
+Qed.
+
+
+(* ================================================================== the value read back denotes the printed decimal *)
+Lemma norm_dec_eqv : forall f v, ffmt_ok f = true -> dec_fits f v = true -> dec_eqv (norm_dec f v) v.
+Proof.
+  intros f [[neg mant] ex] Hok Hfit.
+  destruct (ffmt_ok_facts f Hok) as (Hper & Hw & Hd & Hline & Hsc).
+  unfold dec_fits in Hfit. repeat rewrite andb_true_iff in Hfit. destruct Hfit as [[Hm Hkind] Hlen].
+  assert (Hcase : f_kind f <> FF \/ f_kind f = FF) by (destruct (f_kind f); [left|left|right]; congruence).
+  destruct Hcase as [Hk|Hk].
+  - assert (Hkind' : Z.of_nat (length (dec_digits mant)) <= (if fscale f =? 0 then f_d f else f_d f + 1)).
+    { unfold fscale. destruct (f_kind f); [lia|lia|congruence]. }
+    assert (Hn : norm_dec f (neg, mant, ex) =
+      (neg, mant * 10 ^ ((if fscale f =? 0 then f_d f else f_d f + 1) - Z.of_nat (length (dec_digits mant))),
+       (if mant =? 0 then 0 else ex + Z.of_nat (length (dec_digits mant)) - fscale f)
+       - ((if fscale f =? 0 then f_d f else f_d f + 1) - fscale f))).
+    { unfold norm_dec. destruct (f_kind f); [reflexivity|reflexivity|congruence]. }
+    rewrite Hn. clear Hn. unfold dec_eqv. split; [reflexivity|].
+    set (total := if fscale f =? 0 then f_d f else f_d f + 1) in *.
+    set (k := Z.of_nat (length (dec_digits mant))) in *.
+    destruct (mant =? 0) eqn:Em.
+    + assert (mant = 0) by lia. subst mant. rewrite !Z.mul_0_l. reflexivity.
+    + replace (Z.min (ex + k - fscale f - (total - fscale f)) ex) with (ex + k - total) by lia.
+      replace (ex + k - fscale f - (total - fscale f) - (ex + k - total)) with 0 by lia.
+      replace (ex - (ex + k - total)) with (total - k) by lia.
+      rewrite Z.pow_0_r. ring.
+  - assert (Hkind' : 0 <= ex + f_d f) by (rewrite Hk in Hkind; lia).
+    unfold norm_dec. rewrite Hk. unfold dec_eqv. split; [reflexivity|].
+    replace (Z.min (- f_d f) ex) with (- f_d f) by lia.
+    replace (- f_d f - - f_d f) with 0 by lia.
+    replace (ex - - f_d f) with (ex + f_d f) by lia.
+    rewrite Z.pow_0_r. ring.
 Qed.
